@@ -7,6 +7,7 @@ field `K` (so in particular over ℝ and over the `Rat` the oracle runs at).  `L
 the semantics of DESIGN.md appendix A (`Rooc/Proofs/Cert.lean`).
 -/
 import Rooc.Proofs.Cert
+import Rooc.Proofs.WrapMilp
 import Rooc.Proofs.ComposeSimplexExamples
 import Rooc.Proofs.ComposeSemExamples
 import Rooc.Proofs.RatInst
@@ -189,6 +190,93 @@ theorem milp_unbounded_cert_sound (p : Prob K) (x r : List K) (h : checkMilpUnbo
       simp only [t]; rw [add_mul, div_mul_cancel₀ _ hne]; ring
     have h2 : dot p.relax.obj x - M ≤ |dot p.relax.obj x - M| := le_abs_self _
     nlinarith
+
+/-! ### rooc's MILP wrapper adds no error of its own -/
+
+/-- microlp's contract for a FINISHED solve of the problem rooc sends (explicit hypothesis; the search is not modelled):
+the values satisfy the rows and the bounds / integrality of the columns exactly, `objective()` is `c·x`, and no such
+point is better (in the minimisation form: `obj` for min, `−obj` for max; for `satisfy` any point). -/
+structure RawOptimal (p : Prob K) (objective : K) (vals : List K) : Prop where
+  feasible : ProbFeasible p vals
+  objective_eq : objective = dot p.obj vals
+  optimal : ∀ x', ProbFeasible p x' → dot p.relax.obj vals ≤ dot p.relax.obj x'
+
+/-- **`solve_milp_lp_problem` adds no error of its own.**  For every `LinearModel` that denotes a problem `p`
+(`ofLinModel`: domains → bounds / integrality, rows, objective, offset — the very translation the oracle uses) and whose
+integer ranges fit `i32`: if microlp's raw answer satisfies its contract, the wrapper returns `Ok` with an `LpSolution`
+that names every variable once in model order, whose values DENOTE microlp's point exactly (read-back `as i32` /
+`!= 0.0` loses nothing), whose reported value is the model's objective at that point INCLUDING the offset, and that
+point is feasible and optimal for `p`. -/
+theorem wrapMilp_adds_no_error (lm : LinModel (Ext K)) (p : Prob K) (hden : ofLinModel lm = .ok p)
+    (hi32 : I32Ranges p.doms) (st : SolverWrap.MlpStatus) (objective : K) (vals : List K)
+    (hraw : RawOptimal p objective vals) :
+    ∃ s : SolverWrap.Solution (Ext K),
+      SolverWrap.wrapMilp lm (.ok st (Ext.fin objective) (vals.map Ext.fin)) = .ok s ∧
+      s.assignment.map (·.1) = lm.vars ∧
+      s.assignment.map (fun a => a.2.toNum) = vals.map Ext.fin ∧
+      s.value = Ext.fin (Cert.objective p vals) ∧
+      ProbFeasible p vals ∧ ∀ x', ProbFeasible p x' → dot p.relax.obj vals ≤ dot p.relax.obj x' := by
+  obtain ⟨hdoms, hrows, hobj, hoff, hlen, _⟩ := ofLinModel_inv hden
+  have hF : List.Forall₂ (VarDenotes lm) lm.vars p.doms :=
+    (listM_forall₂ _ _ _ hdoms).imp (fun _ _ h => domOf_inv h)
+  have hR := listM_forall₂ _ _ _ hrows
+  have hvlen : vals.length = lm.vars.length := by
+    rw [domsSatTol_length vals p.doms hraw.feasible.2, hF.length_eq]
+  -- the wrapper's pre-checks pass
+  have c1 : ¬ (lm.objective.length != lm.vars.length) = true := by simp [hlen]
+  have c2 : ¬ (lm.vars.any fun v => (SolverWrap.domainOf lm v).isNone) = true := by
+    simp only [List.any_eq_true, not_exists, not_and]
+    intro v hv
+    obtain ⟨d, _, ty, hty, _⟩ := forall₂_exists_left hF v hv
+    simp [hty]
+  have c3 : ¬ (lm.rows.any fun r => SolverWrap.isStrict r.cmp) = true := by
+    simp only [List.any_eq_true, not_exists, not_and]
+    intro r hr
+    obtain ⟨row, _, hrow⟩ := forall₂_exists_left hR r hr
+    simp [(rowOf_inv hrow).1]
+  have c4 : ∃ cm, SolverWrap.constraintsMap lm (vals.map Ext.fin) = some cm := by
+    have hall : (lm.rows.all fun r => r.coeffs.length == (vals.map Ext.fin).length) = true := by
+      rw [List.all_eq_true]
+      intro r hr
+      obtain ⟨row, _, hrow⟩ := forall₂_exists_left hR r hr
+      simp [(rowOf_inv hrow).2, hvlen]
+    unfold SolverWrap.constraintsMap SolverWrap.calcConstraints
+    rw [if_pos hall]
+    exact ⟨_, rfl⟩
+  obtain ⟨cm, hcm⟩ := c4
+  obtain ⟨hnames, hvals⟩ := assignment_exact lm lm.vars p.doms vals hF hraw.feasible.2 hi32
+  refine ⟨SolverWrap.lpSolutionNew _ (Arith.add (Ext.fin objective) lm.offset) cm, ?_, hnames, hvals, ?_,
+    hraw.feasible, hraw.optimal⟩
+  · simp [SolverWrap.wrapMilp, c1, c2, c3, hcm]
+    congr 1
+    apply List.map_congr_left
+    intro x _
+    cases h : SolverWrap.domainOf lm x.1 <;> simp [h]
+  · simp only [SolverWrap.lpSolutionNew, hoff, SolverWrap.ext_add_fin, Cert.objective, ef_add, hraw.objective_eq]
+
+/-- non-vacuity of `wrapMilp_adds_no_error` (any `K`): `max b`, `b` Boolean, offset 3 denotes a problem, its integer
+ranges fit, and the raw answer `b = 1`, objective 1 satisfies the contract. -/
+example : ∃ p : Prob K,
+    ofLinModel ({ optType := .max, objective := [Ext.fin 1], offset := Ext.fin 3, vars := ["b"],
+                  domain := [{ name := "b", ty := .bool, usage := 1 }], rows := [] } : LinModel (Ext K)) = .ok p ∧
+    I32Ranges p.doms ∧ RawOptimal p 1 [1] := by
+  refine ⟨{ sense := .max, obj := [1], offset := 3, rows := [], doms := [.bool] }, ?_, ?_, ?_, ?_, ?_⟩
+  · simp [ofLinModel, listM, domOf, tyDom, extFin]
+  · intro d hd; simp at hd; subst hd; trivial
+  · exact ⟨by simp, by simp [DomsSatTol, DomSatTol]⟩
+  · simp
+  · intro x' hx'
+    match x', hx' with
+    | [v], ⟨_, hd⟩ =>
+      have hv : |v| ≤ 0 ∨ |v - 1| ≤ 0 := hd.1
+      have : v ≤ 1 := by
+        rcases hv with h | h
+        · have := abs_nonpos_iff.mp h; linarith
+        · have := abs_nonpos_iff.mp h; linarith
+      simp [Prob.relax, negList]
+      linarith
+    | [], ⟨_, hd⟩ => simp [DomsSatTol] at hd
+    | _ :: _ :: _, ⟨_, hd⟩ => simp [DomsSatTol] at hd
 
 /-! ### non-vacuity: the hypotheses are satisfiable (`K = ℚ`) -/
 
